@@ -5,6 +5,12 @@
 //! point, pushes the canonical text of the handler's `Response.messages` into a thread-local log and
 //! returns the result unchanged (a panic of the handler is turned into an `Err`, both abort the tx).
 // SCENARIO cw4stake crate::scen_cw4stake::StakeScen::new()
+// SCENARIO cw4stakewide crate::scen_cw4stake::StakeScen::new_wide()
+//
+// `cw4stakewide` (C20): 36 actors with ordinary balances, small `min_bond` / `tokens_per_weight`, a generator that
+// makes not-yet-members bond above `min_bond` and requests pages explicitly, so ListMembers exceeds the default
+// and the maximum page size.  Header field `wide=1`: the at-height probes (`hist`) use only the 3 most recent
+// recorded heights (plus start-1, current, current+1) — the Lean driver does the same.
 use crate::common::*;
 use cosmwasm_schema::cw_serde;
 use cosmwasm_std::{
@@ -122,6 +128,8 @@ pub struct StakeScen {
     /// heights at which a transaction succeeded (probe heights of the at-height queries)
     heights: Vec<u64>,
     seed: u64,
+    /// `cw4stakewide`: 36 actors (C20)
+    wide: bool,
 }
 
 impl StakeScen {
@@ -139,7 +147,14 @@ impl StakeScen {
             cfg: None,
             heights: vec![],
             seed: 0,
+            wide: false,
         }
+    }
+
+    pub fn new_wide() -> Self {
+        let mut s = Self::new();
+        s.wide = true;
+        s
     }
 
     /// Build the chain: bank balances, token contracts, hook contracts; the stake contract itself is
@@ -213,7 +228,8 @@ impl StakeScen {
 
     fn header(&self, seed: u64, trace: u64) -> String {
         format!(
-            "scenario cw4stake seed={} trace={} height={} time={} sdenom={} pool={} bal={} token={} ftoken={} hooks_ok={} hook_bad={}",
+            "scenario {} seed={} trace={} height={} time={} sdenom={} pool={} bal={} token={} ftoken={} hooks_ok={} hook_bad={}",
+            if self.wide { "cw4stakewide wide=1" } else { "cw4stake" },
             seed,
             trace,
             START_HEIGHT,
@@ -277,7 +293,8 @@ impl StakeScen {
 
     fn probe_heights(&self) -> Vec<u64> {
         let cur = self.app.block_info().height;
-        let mut hs = self.heights.clone();
+        // wide: only the 3 most recent recorded heights
+        let mut hs = if self.wide { self.heights[self.heights.len().saturating_sub(3)..].to_vec() } else { self.heights.clone() };
         hs.push(START_HEIGHT - 1);
         hs.push(cur);
         hs.push(cur + 1);
@@ -342,8 +359,12 @@ impl StakeScen {
         for _ in 0..1000 {
             match self.list_members(cursor.clone(), limit) {
                 Some(p) if !p.is_empty() => {
-                    cursor = Some(p.last().unwrap().split(':').next().unwrap().to_string());
+                    let next = Some(p.last().unwrap().split(':').next().unwrap().to_string());
                     members.extend(p);
+                    if next == cursor {
+                        break; // no progress (a defect in the code under test): do not walk forever
+                    }
+                    cursor = next;
                 }
                 _ => break,
             }
@@ -361,8 +382,11 @@ impl StakeScen {
             } else {
                 self.app.wrap().query_balance(st.to_string(), STAKE_DENOM).map(|c| c.amount.u128()).unwrap_or(0)
             };
+        // C20 self-check of the listing
+        let pagediff = paging_audit("list_members", &|c, l| self.list_members(c, l)).unwrap_or_default();
         format!(
-            "obs denom={} stake={} claims={} member={} hist={} members={} total={} admin={} hooks={} rawmember={} rawtotal={} held={} bal={} fheld={}",
+            "obs pagediff={} denom={} stake={} claims={} member={} hist={} members={} total={} admin={} hooks={} rawmember={} rawtotal={} held={} bal={} fheld={}",
+            pagediff,
             denom,
             stake.join(","),
             claims.join(","),
@@ -420,6 +444,14 @@ impl StakeScen {
     }
 
     fn gen_inst(&self, rng: &mut Rng) -> String {
+        if self.wide {
+            let denom = if rng.chance(3, 5) { "native" } else { "cw20" };
+            let tpw = *rng.pick(&[1u128, 1, 2, 5, 10]);
+            let min_bond = *rng.pick(&[0u128, 1, 10, 100, 100]);
+            let unbond = *rng.pick(&["h1", "h2", "h3", "t5", "t20"]);
+            let admin = if rng.chance(1, 10) { "-".to_string() } else { format!("+{}", rng.pick(&self.pool)) };
+            return format!("inst denom={denom} tpw={tpw} min_bond={min_bond} unbond={unbond} admin={admin}");
+        }
         let denom = if rng.chance(3, 5) { "native".to_string() } else { "cw20".to_string() };
         let tpw: u128 = match rng.below(20) {
             0..=6 => 1,
@@ -526,6 +558,38 @@ impl StakeScen {
         }
     }
 
+    /// `cw4stakewide`: make a not-yet-member bond at or above `min_bond`, or request a page explicitly.
+    fn gen_wide_op(&self, rng: &mut Rng) -> Option<String> {
+        let cfg = self.cfg.clone()?;
+        if rng.chance(3, 10) {
+            let lim = *rng.pick(&["-", "0", "1", "9", "10", "11", "29", "30", "31", "32", "100"]);
+            let members: Vec<String> = self.pool.iter().filter(|a| self.member(a, None).is_some()).map(|a| a.to_string()).collect();
+            let after = match rng.below(8) {
+                0 | 1 => "-".to_string(),
+                2 => format!("+{}", rng.pick(&self.pool)),
+                3 => "-cosmwasm1m".to_string(),
+                4 if rng.chance(1, 2) => format!("-{INVALID_ADDR}"),
+                _ if !members.is_empty() => format!("+{}", rng.pick(&members)),
+                _ => "-".to_string(),
+            };
+            return Some(format!("query list_members after={after} limit={lim}"));
+        }
+        let need = cfg.min_bond.max(cfg.tpw).max(1);
+        let cands: Vec<Addr> =
+            self.pool.iter().filter(|a| self.member(a, None).is_none() && self.bal(a) >= need).cloned().collect();
+        if cands.is_empty() {
+            return None;
+        }
+        let snd = rng.pick(&cands).clone();
+        let already = self.staked(&snd);
+        let amt = (need.saturating_sub(already) + rng.below(400) as u128).min(self.bal(&snd)).max(1);
+        Some(if cfg.native {
+            format!("exec {snd} bond funds={STAKE_DENOM}:{amt}")
+        } else {
+            format!("send {snd} token={} amt={amt} msg=bond", self.token)
+        })
+    }
+
     fn gen_env(&self, rng: &mut Rng) -> String {
         let b = self.app.block_info();
         let (ph, pt) = match self.cfg.as_ref().map(|c| c.period) {
@@ -548,11 +612,12 @@ impl StakeScen {
 impl Scenario for StakeScen {
     fn start(&mut self, seed: u64, trace: u64) -> String {
         let api = cosmwasm_std::testing::MockApi::default();
-        let p = pool(&api, 5);
+        let p = pool(&api, if self.wide { 36 } else { 5 });
         // balances derived from (seed, trace): huge, around 2^64, ordinary, tiny, zero; total < 2^128
         let mut rng = Rng::new(seed ^ trace.wrapping_mul(0xA24BAED4963EE407) ^ 0x5bd1e995);
+        let wide = self.wide;
         let bal: Vec<u128> = (0..p.len())
-            .map(|_| match rng.below(8) {
+            .map(|_| match if wide && rng.chance(5, 6) { 3 + rng.below(3) } else { rng.below(8) } {
                 0 => (1u128 << 100) + rng.below(1_000_000) as u128,
                 1 => TWO64 + 5 + rng.below(100) as u128,
                 2 => (TWO64 << 8) + rng.below(1000) as u128,
@@ -582,6 +647,7 @@ impl Scenario for StakeScen {
             .collect();
         self.setup(pool, bal);
         self.seed = a.u64("seed");
+        self.wide = a.get("wide") == Some("1");
     }
 
     fn gen_op(&mut self, rng: &mut Rng, _step: usize) -> String {
@@ -589,6 +655,11 @@ impl Scenario for StakeScen {
             return self.gen_inst(rng);
         }
         let cfg = self.cfg.clone().unwrap();
+        if self.wide && rng.chance(7, 10) {
+            if let Some(op) = self.gen_wide_op(rng) {
+                return op;
+            }
+        }
         let r = rng.below(100);
         if r < 14 {
             return self.gen_env(rng);
